@@ -134,16 +134,19 @@ namespace Molodensky
 
 def gamut : List OpParameter := Gen.gamut_molodensky_GAMUT
 
-/-- `molodensky::new`: when both `ellps_0` and `ellps_1` are given in the definition, `ellps_0`
+/-- `molodensky::new`: when both `ellps_0` and `ellps_1` are given (in the definition or by the caller of the macro
+the step belongs to), `ellps_0`
 replaces a not given `ellps`, and `da`, `df` are overwritten by the differences -/
 def new (R : Type) [Scalar R] (ce : CtorEnv) (raw : RawParameters) : Except Err (Node R) :=
   match plain (R := R) ce "molodensky" true gamut raw with
   | .error e => .error e
   | .ok n =>
     let p := n.params
-    if p.given.contains (S "ellps_0") && p.given.contains (S "ellps_1") then
+    -- given in the step itself or, for a step of a macro body, by the caller of the macro
+    let given (k : Str) : Bool := p.given.contains k || raw.globals.contains k
+    if given (S "ellps_0") && given (S "ellps_1") then
       let p1 :=
-        if !p.given.contains (S "ellps") then
+        if !given (S "ellps") then
           match p.text? (S "ellps_0") with
           | some e0 => Except.ok (p.setText (S "ellps") e0)
           | none => Except.error Err.missingParam   -- unreachable: the gamut has a default
